@@ -16,6 +16,10 @@ class C10Rotating(Scenario):
         if rng.chance(1, 25):
             cfg.update({"est": rng.choice((257, 300)), "mqs": rng.between(1, 3), "universe": 1500, "rate": 0.05, "big": True,
                         "steps": rng.between(6, 14)})
+        elif rng.chance(1, 40):
+            # long queues: the bound must not depend on max_queue_size being small
+            cfg.update({"est": rng.choice((1, 2)), "mqs": rng.choice((256, 257, 300)), "rate": rng.choice((0.2, 0.05)),
+                        "wideq": True, "explicit": True, "steps": rng.between(4, 10), "universe": 1500})
         if common.geometry(cfg["est"], cfg["rate"]) is None:
             cfg["rate"] = 0.1
         return cfg
@@ -29,6 +33,11 @@ class C10Rotating(Scenario):
         if cfg.get("big") and r < 70:
             self.burst_at = getattr(self, "burst_at", 0) + 160
             return {"op": "burst", "k0": self.burst_at - 160, "cnt": rng.choice((100, 160))}
+        if cfg.get("wideq") and r < 40:
+            return {"op": "push", "cnt": rng.choice((255, 256, 257, 300, 40))}
+        if cfg.get("wideq") and r < 70:
+            self.burst_at = getattr(self, "burst_at", 0) + 320
+            return {"op": "burst", "k0": self.burst_at - 320, "cnt": rng.choice((257, 300, 320))}
         if r < 84 or not cfg["explicit"]:
             return {"op": "add", "k": rng.below(cfg["universe"]), "force": rng.chance(1, 8)}
         if r < 92:
@@ -85,9 +94,13 @@ class C10Rotating(Scenario):
                 if o.current_queue_size != q0 or q0 == mqs:
                     ctx.probe("rotation_possible")
         elif op == "push":
-            o.push()
+            for _ in range(step.get("cnt", 1)):
+                o.push()
+                if o.current_queue_size > mqs:
+                    raise Violation("queue_unbounded", f"current_queue_size={o.current_queue_size}, max_queue_size={mqs} "
+                                                       f"during {step}", sig)
             self.since = {}
-            ctx.fault("explicit_push")
+            ctx.fault("explicit_push", step.get("cnt", 1))
         elif op == "pop":
             if o.current_queue_size == 1:
                 before = bytes(o)
@@ -132,6 +145,10 @@ class C10Rotating(Scenario):
         return {"r": "ok", "q": q}
 
     def simplify_step(self, step):
+        if step.get("cnt", 1) > 1:
+            s = dict(step)
+            s["cnt"] = step["cnt"] - 1
+            yield s
         if step.get("force"):
             s = dict(step)
             s["force"] = False
